@@ -111,7 +111,7 @@ func cmdSites(r xres) (sites []site) {
 		if c, ok := n.(*xast.CallExpr); ok && c.IsCommand() && c.Fun != nil {
 			func() {
 				defer func() { recover() }()
-				sites = append(sites, site{tf.Offset(c.Fun.Pos()), tf.Offset(c.Fun.End())})
+				sites = append(sites, site{funPos: tf.Offset(c.Fun.Pos()), funEnd: tf.Offset(c.Fun.End())})
 			}()
 		}
 	})
@@ -163,6 +163,7 @@ type verdict struct {
 	off    int
 	sites  []site
 	toks   []pgo.Tok
+	errs   []int // offsets of the XGo errors
 }
 
 func compareOnce(src []byte, mode xparser.Mode, gfset *gotoken.FileSet, g *goast.File) verdict {
@@ -188,12 +189,16 @@ func compareOnce(src []byte, mode xparser.Mode, gfset *gotoken.FileSet, g *goast
 				if e.Pos.Offset < first {
 					first = e.Pos.Offset
 				}
+				v.errs = append(v.errs, e.Pos.Offset)
 			}
 		}
 		v.off = first
 		for i := range v.sites {
 			// the callee was parsed before anything was reported <=> it ends before the first error
-			v.sites[i].untrusted = v.sites[i].funEnd > first
+			// ... and it is the adjacency test that made it a command call (not a tuple found
+			// during error recovery): the next token does not touch the callee
+			b := nextTok(v.toks, v.sites[i].funEnd)
+			v.sites[i].untrusted = v.sites[i].funEnd > first || b == nil || b.Pos == v.sites[i].funEnd
 		}
 		return v
 	}
@@ -223,6 +228,18 @@ func compareRepaired(src []byte, mode xparser.Mode, report bool) (verdict, []byt
 	cur := src
 	for iter := 0; ; iter++ {
 		v := compareOnce(cur, mode, gfset, g)
+		trustedAny := false
+		for _, s := range v.sites {
+			if !s.untrusted {
+				trustedAny = true
+			}
+		}
+		if !trustedAny {
+			if len(v.sites) > 0 {
+				out.Count("only_untrusted_sites")
+			}
+			v.sites = nil
+		}
 		if v.kind != "panic" && v.kind != "same" && len(v.sites) == 0 && iter < 80 {
 			// the XGo scanner inserts a semicolon after '!' and '...' at a line end (recorded finding)
 			if next, key := repairLineEnd(cur); next != nil {
@@ -230,6 +247,21 @@ func compareRepaired(src []byte, mode xparser.Mode, report bool) (verdict, []byt
 					oracle(key, mode, cur, fmt.Sprintf("%s: %s", v.kind, v.detail))
 				}
 				out.Count("repaired_" + key)
+				if gfset, g, err = parseGo(next); err != nil {
+					return verdict{kind: "repairbroke", detail: err.Error()}, next, iter
+				}
+				cur = next
+				continue
+			}
+		}
+		if v.kind == "xerr" && len(v.sites) == 0 && iter < 80 {
+			// the tree may have lost the call (error recovery): evaluate the statements that hold
+			// an error position on their own
+			if next, key, at := stmtFallback(cur, gfset, g, v.errs); next != nil {
+				if report {
+					oracle(key, mode, snippetAround(cur, at, at+1), fmt.Sprintf("%s: %s", v.kind, v.detail))
+				}
+				out.Count("repaired_by_stmt_fallback")
 				if gfset, g, err = parseGo(next); err != nil {
 					return verdict{kind: "repairbroke", detail: err.Error()}, next, iter
 				}
@@ -265,12 +297,10 @@ func compareRepaired(src []byte, mode xparser.Mode, report bool) (verdict, []byt
 			}
 			return next, repaired
 		}
-		trustedAny := false
 		for _, s := range v.sites {
 			if s.untrusted {
 				continue
 			}
-			trustedAny = true
 			if b := nextTok(v.toks, s.funEnd); b != nil {
 				if v.kind != "same" {
 					if report {
@@ -285,10 +315,7 @@ func compareRepaired(src []byte, mode xparser.Mode, report bool) (verdict, []byt
 		if repaired && !sameGoTokens(cur, next) {
 			next, repaired = apply(false)
 		}
-		if !repaired || !trustedAny {
-			if !trustedAny {
-				out.Count("only_untrusted_sites")
-			}
+		if !repaired {
 			v.sites = nil
 			if v.kind == "same" {
 				return v, cur, iter
@@ -303,6 +330,73 @@ func compareRepaired(src []byte, mode xparser.Mode, report bool) (verdict, []byt
 		}
 		cur = next
 	}
+}
+
+// stmtFallback finds command-call sites by parsing single statements (those containing an
+// error position) on their own and repairs them.
+func stmtFallback(cur []byte, fset *gotoken.FileSet, f *goast.File, errs []int) ([]byte, string, int) {
+	refs := collectStmts(fset, f)
+	type fix struct{ from, to int }
+	var fixes []fix
+	key, at := "", -1
+	n := 0
+	for _, ref := range refs {
+		if ref.ctx != "list" || ref.end <= ref.start || ref.end > len(cur) {
+			continue
+		}
+		hit := false
+		for _, e := range errs {
+			if e >= ref.start && e <= ref.end+1 {
+				hit = true
+				break
+			}
+		}
+		if !hit {
+			continue
+		}
+		if n++; n > 300 {
+			break
+		}
+		_, impl, ok := stmtCase("list", cur[ref.start:ref.end])
+		if !ok || !strings.HasPrefix(impl, "site ") {
+			continue
+		}
+		var rel int
+		var kind string
+		fmt.Sscanf(impl, "site %d %s", &rel, &kind)
+		// the callee ends at the last non-blank, non-comment byte before the site token:
+		// use the scanner's tokens of the file
+		toks, sok := pgo.Scan(cur)
+		if !sok {
+			return nil, "", -1
+		}
+		bpos := ref.start + rel
+		i := sort.Search(len(toks), func(i int) bool { return toks[i].Pos >= bpos })
+		if i == 0 || i >= len(toks) || toks[i].Pos != bpos || toks[i-1].End >= bpos {
+			continue
+		}
+		fixes = append(fixes, fix{toks[i-1].End, bpos})
+		if at < 0 || ref.start < at {
+			at, key = ref.start, siteKey(toks[i].Kind)
+		}
+	}
+	if len(fixes) == 0 {
+		return nil, "", -1
+	}
+	sort.Slice(fixes, func(i, j int) bool { return fixes[i].from > fixes[j].from })
+	next := append([]byte{}, cur...)
+	last := len(next) + 1
+	for _, fx := range fixes {
+		if fx.to > last {
+			continue // overlapping (nested statements)
+		}
+		next = append(next[:fx.from], next[fx.to:]...)
+		last = fx.from
+	}
+	if !sameGoTokens(cur, next) {
+		return nil, "", -1
+	}
+	return next, key, at
 }
 
 func sameGoTokens(a, b []byte) bool {
